@@ -3,7 +3,7 @@
 the figures quoted in DESIGN.md section 10.  usage: tools/refresh_corpus.py [round ...]      rounds: 1 2 3 4 5 (default: all)
 
 round 1: Cxx-<n>, Cxx-r1..r4      round 2: Cxx-d2_k, Cxx-r5..r8      round 3: Cxx-d3_k(-fixed), Cxx-r9..r12
-round 4: Cxx-d4_k(-fixed), Cxx-r13..r16      round 5: Cxx-d5_k(-fixed), Cxx-r17..r18"""
+round 4: Cxx-d4_k(-fixed), Cxx-r13..r16      round 5: Cxx-d5_k(-fixed), Cxx-r17..r18      round 6: Cxx-r19..r20 (refactorings only)"""
 import glob, json, os, re, subprocess, sys
 V = os.path.dirname(os.path.dirname(os.path.abspath(__file__)))
 
@@ -19,7 +19,7 @@ def round_of(name):
     m3 = re.fullmatch(r'r(\d+)', s)
     if m3:
         k = int(m3.group(1))
-        return (1 if k <= 4 else 2 if k <= 8 else 3 if k <= 12 else 4 if k <= 16 else 5), 'refactor'
+        return (1 if k <= 4 else 2 if k <= 8 else 3 if k <= 12 else 4 if k <= 16 else 5 if k <= 18 else 6), 'refactor'
     return 0, '?'
 
 
@@ -31,7 +31,7 @@ def mx(dirs):
 
 
 def main():
-    want = {int(a) for a in sys.argv[1:]} or {1, 2, 3, 4, 5}
+    want = {int(a) for a in sys.argv[1:]} or {1, 2, 3, 4, 5, 6}
     alld = sorted(glob.glob(os.path.join(V, 'seeded', 'C??-*')))
     for rnd in sorted(want):
         D = [d for d in alld if round_of(os.path.basename(d)) == (rnd, 'defect')]
